@@ -153,32 +153,24 @@ Definition record (st : hstate) (e : edge) (outs : list node) (h : N) (m : Z) (S
       (fun n => if mem_node n outs then Some S else h_ghost st n)
       (e :: h_trace st).
 
-(* StartEdge (lock tick = command_start_time_), the command, FinishCommand.  [st] is also the
-   state the scan's Node::mtime() of the outputs refers to: nothing but this command writes them. *)
-Definition run_edge (st : hstate) (e : edge) : hstate :=
+(* the command proper and FinishCommand: the output writes starting from [st1], then the log
+   entries.  [sc] is the state the scan's Node::mtime() of the outputs refers to (nothing but this
+   command writes them), [S] what the command read, [t0] the lock tick (command_start_time_). *)
+Definition finish_run (sc st1 : hstate) (e : edge) (h : N) (S : snapshot) (t0 : Z) : hstate :=
   let ei := g_edge g e in
-  let h := h_hash st e in
-  let S := reads st e in
-  let st1 := tick st in
-  let t0 := h_clock st1 in
   let st2 := write_outs (ei_restat ei) (cmd e h S) (ei_outs ei) st1 in
   let m := CrashDefs.record_mtime (crash_cfg ei h) t0
-             (map (orec_of st) (ei_outs ei)) (map (orec_of st2) (ei_outs ei)) in
+             (map (orec_of sc) (ei_outs ei)) (map (orec_of st2) (ei_outs ei)) in
   record st2 e (ei_outs ei) h m S.
+
+(* StartEdge (lock tick), the command reads its inputs, writes its outputs, FinishCommand *)
+Definition run_edge (st : hstate) (e : edge) : hstate :=
+  finish_run st (tick st) e (h_hash st e) (reads st e) (h_clock (tick st)).
 
 (* the same with a source edit landing while the command runs: after the command has read its
    inputs, before it writes its outputs (the exception clause of C01) *)
 Definition run_edge_racy (st : hstate) (e : edge) (n : node) (c : content) : hstate :=
-  let ei := g_edge g e in
-  let h := h_hash st e in
-  let S := reads st e in
-  let st1 := tick st in
-  let t0 := h_clock st1 in
-  let st1' := write_file st1 n c in
-  let st2 := write_outs (ei_restat ei) (cmd e h S) (ei_outs ei) st1' in
-  let m := CrashDefs.record_mtime (crash_cfg ei h) t0
-             (map (orec_of st) (ei_outs ei)) (map (orec_of st2) (ei_outs ei)) in
-  record st2 e (ei_outs ei) h m S.
+  finish_run st (write_file (tick st) n c) e (h_hash st e) (reads st e) (h_clock (tick st)).
 
 (* ------------------------------------------------------------------ one invocation of ninja *)
 (* ScanDefs' dirty test for the outputs of [e] on the world as it is now *)
@@ -361,3 +353,63 @@ Example converged9 :
   end.
 Proof. vm_compute. split; reflexivity. Qed.
 End Ex.
+
+(* ================================================================== the documented always-dirty case *)
+(*   e0  build always : phony          (no inputs; the file never exists)
+     e1  build out    : cc always                                                         *)
+Module ExAlways.
+Definition e0 := mkEdge [] 0 0 [0%nat] [] true false false DepsNone 0.
+Definition e1 := mkEdge [0%nat] 0 0 [1%nat] [] false false false DepsNone 5.
+Definition g : graph :=
+  mkGraph 2 (fun e => match e with 0%nat => e0 | 1%nat => e1 | _ => Ex.dummy end)
+    (fun n => match n with 0%nat => Some 0%nat | 1%nat => Some 1%nat | _ => None end)
+    (fun _ => false).
+Definition st1 := apply_step Ex.cmd g (init_hstate g) (Build [1%nat]).
+
+Example frag_ok : frag_AB g && topo_ordered g = true /\ no_inputless_phony g = false.
+Proof. vm_compute. split; reflexivity. Qed.
+
+(* after a successful build the scan still wants e1, and a second build runs it again *)
+Example always_dirty :
+  h_trace st1 = [1%nat] /\
+  match scan (graph_of g st1) (world_of st1) [1%nat] with
+  | ScanOk _ p => p_want p 1%nat = Some WantToStart
+  | _ => False
+  end /\
+  h_trace (apply_step Ex.cmd g st1 (Build [1%nat])) = [1; 1]%nat.
+Proof. vm_compute. repeat split; reflexivity. Qed.
+End ExAlways.
+
+(* ================================================================== an edit while the command runs *)
+(* one statement  build out : <rule> src ; src is rewritten after the command has read it and
+   before it writes out.  Plain rule: the log entry carries the START tick, the next run sees src
+   newer and re-runs.  generator / restat rule (output changed): the entry carries the OUTPUT's
+   time, which is later than the edit: the next run is satisfied with a stale out. *)
+Module ExRace.
+Definition mk (restat generator : bool) : graph :=
+  mkGraph 1 (fun e => match e with
+                      | 0%nat => mkEdge [0%nat] 0 0 [1%nat] [] false restat generator DepsNone 7
+                      | _ => Ex.dummy end)
+    (fun n => match n with 1%nat => Some 0%nat | _ => None end)
+    (fun _ => false).
+
+(* src = 5; the command runs reading 5 while src becomes 6; then ninja is run again *)
+Definition after_race (g : graph) : hstate :=
+  run_edge_racy Ex.cmd g (write_file (init_hstate g) 0%nat 5%N) 0%nat 0%nat 6%N.
+Definition next (g : graph) : hstate := apply_step Ex.cmd g (after_race g) (Build [1%nat]).
+
+Example plain_rule_recovers :
+  let g := mk false false in
+  h_trace (next g) = [0; 0]%nat /\ content_of (next g) 1%nat = clean_of Ex.cmd g (next g) 1%nat.
+Proof. vm_compute. split; reflexivity. Qed.
+
+Example generator_rule_stale :
+  let g := mk false true in
+  h_trace (next g) = [0%nat] /\ content_of (next g) 1%nat <> clean_of Ex.cmd g (next g) 1%nat.
+Proof. vm_compute. split; [reflexivity|discriminate]. Qed.
+
+Example restat_rule_stale :
+  let g := mk true false in
+  h_trace (next g) = [0%nat] /\ content_of (next g) 1%nat <> clean_of Ex.cmd g (next g) 1%nat.
+Proof. vm_compute. split; [reflexivity|discriminate]. Qed.
+End ExRace.
